@@ -410,6 +410,41 @@ def m4(prog, ctx):
         ctx.ok("M4", "%s:%d" % (ISO, abr.lineno), "genes / isoforms / penalty accumulated by identical code (up to renaming of locals)")
 
 
+def m6(prog, ctx):
+    """The resolver reads `not a.multimapper` as "this record is the primary alignment": at collection time the field must be exactly the
+    secondary flag of the record's own alignment."""
+    AP = "src/alignment_processor.py"
+    cls = prog.cls(AP, "AlignmentCollector")
+    n = 0
+    seen_lines = set()
+    for name, f in sorted(prog.methods_of(cls, inherited=False).items()):
+        fi = prog.func_inlined(AP, f._qualname)
+        for st in walk_no_nested(fi):
+            if not (isinstance(st, ast.Assign) and any(isinstance(t, ast.Attribute) and t.attr == "multimapper" for t in st.targets)):
+                continue
+            if getattr(st, "lineno", None) in seen_lines:
+                continue                         # the same statement reached again through an inlined caller
+            seen_lines.add(getattr(st, "lineno", None))
+            n += 1
+            v = st.value
+            if isinstance(v, ast.Name):
+                defs = [a.value for a in walk_no_nested(fi) if isinstance(a, ast.Assign) and len(a.targets) == 1 and src(a.targets[0]) == v.id]
+                if len(defs) == 1:
+                    v = defs[0]
+            ok = isinstance(v, ast.Attribute) and v.attr == "is_secondary" and isinstance(v.value, ast.Name)
+            if ok:
+                # the alignment is the one of the enclosing loop (the record being built)
+                loops = [l for l in flow.enclosing_loops(st) if isinstance(l, ast.For)]
+                ok = any(v.value.id in {x.id for x in ast.walk(l.target) if isinstance(x, ast.Name)} for l in loops)
+            if ok:
+                ctx.ok("M6", "%s:%d" % (AP, st.lineno), "%s: multimapper = %s (secondary flag of the loop's own alignment)" % (f._qualname, src(v)))
+            else:
+                ctx.fail("M6", st, f._qualname, src(st)[:90], "ReadAssignment.multimapper is set to %s instead of the secondary flag of the record's own "
+                         "alignment: the resolver treats `not multimapper` as \"primary alignment\", so a primary record that is flagged loses its "
+                         "precedence and ties with its secondary alignments" % src(st.value)[:60])
+    ctx.floor("M6", "collection sites setting ReadAssignment.multimapper", n, 2)
+
+
 def run(prog, ctx):
     ctx.rule("M1", "each index list of select_best_assignment gets its priority class from the predicates guarding its append; the "
                    "sequence of `if L: return` is strictly increasing in primary-unique-consistent < consistent < primary-"
@@ -421,6 +456,9 @@ def run(prog, ctx):
                    "is dominated by `not <read>.multimapper`")
     ctx.rule("M4", "BasicReadAssignment.__init__, deserialize and deserialize_from_read_assignment assign the same attribute set; "
                    "start/end come from the original exons (wire position checked); genes/isoforms/penalty loops are identical")
+    ctx.rule("M6", "in AlignmentCollector (helpers inlined) every assignment to <record>.multimapper is <alignment>.is_secondary with "
+                   "<alignment> bound by an enclosing loop of the record")
+    m6(prog, ctx)
     m1(prog, ctx)
     m2(prog, ctx)
     m3(prog, ctx)
